@@ -215,6 +215,7 @@ func handleExceptionSignal(vm *r.VM, blockModule *r.Module, catchBlock []*syntax
 
 				return rtnValue, nil
 			}
+			vm.PopCallFrameOnError()
 			return nil, err
 		}
 	}
@@ -389,6 +390,7 @@ func evalConstructorDeclareStmt(vm *r.VM, node *syntax.FunctionDeclareStmt) erro
 		vm.PushCallFrame(r.NewFunctionCallFrame(module, instance))
 
 		if _, err := evalExecBlock(vm, node.ExecBlock, elems); err != nil {
+			vm.PopCallFrameOnError()
 			return nil, err
 		}
 
